@@ -832,3 +832,117 @@ def defaultRunProgram (c : Case) (modName : String) : String × List String :=
   | none => ("", [])
 
 end DX
+
+namespace DX
+
+/-! ## Forwarding to a user impl (C09): expected values and call logs from `FwdImpl.call` (`Sem/Basic.lean`) -/
+
+def l2PreludeFwd : String := "#![allow(dead_code, unused_imports, unused_variables, unused_mut, non_snake_case, non_camel_case_types)]
+use derive_ex::{derive_ex, Ex};
+use std::cell::RefCell;
+thread_local! { static LOG: RefCell<Vec<String>> = RefCell::new(Vec::new()); }
+pub fn log(s: String) { LOG.with(|l| l.borrow_mut().push(s)); }
+pub fn take() -> String { LOG.with(|l| std::mem::take(&mut *l.borrow_mut())).join(\";\") }
+"
+
+/-- the operand types, local to every case module (each case implements operators for them) -/
+def fwdTypes : String := "#[derive(Debug, PartialEq)] pub struct A(pub String);
+impl Clone for A { fn clone(&self) -> Self { log(format!(\"cloneA {}\", self.0)); A(format!(\"c{}\", self.0)) } }
+#[derive(Debug, PartialEq)] pub struct B(pub String);
+impl Clone for B { fn clone(&self) -> Self { log(format!(\"cloneB {}\", self.0)); B(format!(\"c{}\", self.0)) } }
+"
+
+/-- a user impl of a (non-commutative-looking) operator in one of its base forms, and the traits requested from it -/
+def genFwdRunCase (seed idx : Nat) : Case := runGen seed idx do
+  let op ← pick BinOp.all
+  let baseAssign ← chance 1 5
+  let bl ← chance 1 2          -- the user's impl is for `&A`
+  let br ← chance 1 2          -- … and takes `&Rhs`
+  let rhsIsA ← chance 1 2
+  let tA := Ty.simple "A"
+  let rhsBase : Ty := if rhsIsA then tA else Ty.simple "B"
+  let selfTy : Ty := if bl && !baseAssign then .ref none false tA else tA
+  let rhsTy : Ty := if br then .ref none false rhsBase else rhsBase
+  -- written with `Self` where that is the same type
+  let rhsWritten ← if rhsIsA && !bl && (← chance 1 2) then pure (if br then Ty.ref none false Ty.selfTy else Ty.selfTy) else pure rhsTy
+  let traitName := op.str ++ (if baseAssign then "Assign" else "")
+  let omitArg := !baseAssign && rhsIsA && !br && !bl
+  let omitArg ← if omitArg then chance 1 2 else pure false
+  let lastSeg : Seg := .mk traitName (if omitArg then [] else [.ty rhsWritten])
+  let segs : List Seg := [.mk "std" [], .mk "ops" [], lastSeg]
+  let f := op.func
+  let rty := srcText rhsWritten.toks
+  let sym := op.sym
+  let fnToks : Toks :=
+    if baseAssign then
+      [s!"fn {f}_assign(&mut self, rhs: {rty}) \{ log(format!(\"base_assign \{} \{}\", self.0, rhs.0)); self.0 = format!(\"[\{}{sym}=\{}]\", self.0, rhs.0); }"]
+    else
+      [s!"fn {f}(self, rhs: {rty}) -> A \{ log(format!(\"base \{} \{}\", self.0, rhs.0)); A(format!(\"[\{}{sym}\{}]\", self.0, rhs.0)) }"]
+  let members : List ImplMember := (if baseAssign then [] else [.output tA]) ++ [.other fnToks]
+  let reqStyle ← below 6
+  let opn := op.str
+  let items : List DeriveItem :=
+    if baseAssign then [{ trait_ := opn }]
+    else match reqStyle with
+      | 0 | 1 => [{ trait_ := opn }]
+      | 2 => [{ trait_ := opn ++ "Assign" }]
+      | 3 | 4 => [{ trait_ := opn }, { trait_ := opn ++ "Assign" }]
+      | _ => [{ trait_ := opn ++ "Assign" }, { trait_ := opn }]
+  let item : ItemImpl := { attrs := [], generics := {}, neg := false, trait_ := some (false, segs), selfTy, members }
+  pure { id := s!"fwdRun/{seed}/{idx}",
+         tags := [s!"base={if baseAssign then "assign" else "binary"}", s!"self={if bl then "ref" else "owned"}", s!"rhs={if br then "ref" else "owned"}",
+                  s!"req={"+".intercalate (items.map (·.trait_))}"],
+         entry := .attr { items }, item := .impl_ item }
+
+def fwdImplOf (c : Case) : Option FwdImpl :=
+  match c.entry, c.item with
+  | .attr a, .impl_ i => (match buildFwd a i with | .ok f => some f | .error _ => none)
+  | _, _ => none
+
+def fwdRunProgram (c : Case) (modName : String) : String × List String :=
+  match fwdImplOf c with
+  | none => ("", [])
+  | some f =>
+    let rhsIsA := f.rhs.toks == ["A"]
+    let rhsT := if rhsIsA then "A" else "B"
+    let cloneTag (isRhs : Bool) := if isRhs && !rhsIsA then "cloneB" else "cloneA"
+    let sym := f.op.sym
+    -- operands as they reach the user's function, and the clones made on the way (`FwdImpl.call`); the callee of a
+    -- generated `OpAssign` is `<l as Op<rhs>>::op`: the user's own impl, or another generated form that forwards in turn
+    let through (ps : List Pass) (name : String) (isRhs : Bool) : String × List String :=
+      ps.foldl (fun (acc : String × List String) p =>
+        match p with
+        | .cloned => ("c" ++ acc.1, acc.2 ++ [s!"{cloneTag isRhs} {acc.1}"])
+        | _ => acc) (name, [])
+    let lines : List (String × String) := f.items.map fun it =>
+      let k := f.call it
+      let inner : List FwdCall := match it with
+        | .assign rhs callL =>
+          let rr := (toRefElem rhs).2
+          if f.baseForm == .binary && !(callL == f.thisIsRef && rr == f.rhsIsRef) then [f.call (.binary callL rr)] else []
+        | _ => []
+      let (l, cl) := through (k.lhs :: inner.map (·.lhs)) "a" false
+      let (r, cr) := through (k.rhs :: inner.map (·.rhs)) "b" true
+      let baseLog := if k.calleeAssign then s!"base_assign {l} {r}" else s!"base {l} {r}"
+      let val := if k.calleeAssign then s!"[{l}{sym}={r}]" else s!"[{l}{sym}{r}]"
+      let lg := ";".intercalate (cl ++ cr ++ [baseLog])
+      let setup := s!"let mut a = A(String::from(\"a\")); let b = {rhsT}(String::from(\"b\"));"
+      match it with
+      | .binary implL implR =>
+        let tag := s!"bin {refCh implL}{refCh implR}"
+        (s!" \{ {setup} take(); let z = {if implL then "&a" else "a"} {sym} {if implR then "&b" else "b"}; let lg = take(); println!(\"{modName} {tag} \{} | \{}\", z.0, lg); }\n",
+         s!"{modName} {tag} {val} | {lg}")
+      | .assign rhs _ =>
+        let rr := (toRefElem rhs).2
+        let tag := s!"assign {refCh rr}"
+        (s!" \{ {setup} take(); a {sym}= {if rr then "&b" else "b"}; let lg = take(); println!(\"{modName} {tag} \{} | \{}\", a.0, lg); }\n",
+         s!"{modName} {tag} {val} | {lg}")
+      | .binFromAssign =>
+        let rr := f.rhsIsRef
+        let tag := "bin-from-assign"
+        (s!" \{ {setup} take(); let z = a {sym} {if rr then "&b" else "b"}; let lg = take(); println!(\"{modName} {tag} \{} | \{}\", z.0, lg); }\n",
+         s!"{modName} {tag} {val} | {lg}")
+    let body := s!"pub mod {modName} \{ use super::*;\n{fwdTypes}{rustItem c}\npub fn run() \{\n" ++ String.join (lines.map (·.1)) ++ "}\n}\n"
+    (body, lines.map (·.2))
+
+end DX
